@@ -86,3 +86,29 @@ def _v22(repo, mod):
     fn = _rm(repo)
     lp = find_stmt(fn, lambda s: isinstance(s, ast.For) and "to_delete" in norm(s.iter))
     return replace_node(mod, lp.iter, "sorted(to_delete)")
+
+
+@variant("C21", "invalid-mutant-gets-empty-column", AG, "C21.unchecked", "skip path returns a list instead of the skip token")
+def _v40(repo, mod):
+    fn = repo.func(AG, f"{GEN}._execute_test_case_on_mutant")
+    r = find_stmt(fn, lambda s: isinstance(s, ast.Return) and norm(s) == "return None")
+    return replace_node(mod, r, "return []")
+
+
+@variant("C21", "counted-before-skip-test", AG, "C21.unchecked", "num_checked incremented before the None test")
+def _v41(repo, mod):
+    from sa.selftest.harness import text_edit
+    return text_edit(mod, "            if tests_mutant_results is None:\n                continue\n            num_checked += 1\n", "            num_checked += 1\n            if tests_mutant_results is None:\n                continue\n")
+
+
+@variant("C21", "twin-skip-test-nested", AG, None, "if-not-None nesting instead of continue")
+def _v42(repo, mod):
+    from sa.selftest.harness import text_edit
+    return text_edit(mod, "            if tests_mutant_results is None:\n                continue\n            num_checked += 1\n            for i, test_mutant_results in enumerate(tests_mutant_results):\n                tests_mutants_results[i].append(test_mutant_results)\n",
+                     "            if tests_mutant_results is not None:\n                num_checked += 1\n                for i, test_mutant_results in enumerate(tests_mutant_results):\n                    tests_mutants_results[i].append(test_mutant_results)\n")
+
+
+@variant("C21", "rendered-source-memoised-by-assertion", "pynguin.assertion.assertiontraceobserver", "C21.own-rendering", "memo keyed by the assertion object (1 == True)")
+def _v43(repo, mod):
+    from sa.selftest.harness import text_edit
+    return text_edit(mod, "            cst_node = assertion_to_cst(assertion)\n", "            if assertion in self._state.memo:\n                cst_node = self._state.memo[assertion]\n            else:\n                cst_node = self._state.memo.setdefault(assertion, assertion_to_cst(assertion))\n")
